@@ -206,6 +206,28 @@ def mapSetItemAddrH (fuelSrc fuel : Nat) (h : Heap) (ents : List Nat) (nk key : 
           match alloc h2 (.entry hv kn koa) with
           | (e, h3) => some (ents ++ [e], h3)
 
+/-- `cif_value_set_element_at(list, i, src)` with the address of the caller's object (an object outside the list; for a
+    source inside the list see `cloneOntoAddrH` applied to the element): as `listSetH`, the copy read from the source -/
+def listSetAddrH (fuelSrc fuel : Nat) (h : Heap) (hv : HVal) (i : Nat) (src : Option Nat) : Option Heap :=
+  match hv with
+  | .lst (some arr) _ =>
+    match read h arr with
+    | some (.arr xs _) =>
+      match xs[i]? with
+      | none => none
+      | some t =>
+        match read h t with
+        | some (.val old) =>
+          match cleanVal fuel h old with
+          | none => none
+          | some h1 =>
+            match copyFields fuelSrc h1 src with
+            | none => none
+            | some (new, h2) => write h2 t (.val new)
+        | _ => none
+    | _ => none
+  | _ => none
+
 /-! ### members by reference -/
 
 /-- `cif_value_get_element_at(list, i, &element)`: the address of the element object ITSELF (no copy) -/
